@@ -179,13 +179,52 @@ func (w *Sink) Write(p []byte) (int, error) {
 // ---- Conn ------------------------------------------------------------------------
 
 // pipeHalf is one direction of a simulated TCP connection: an ordered,
-// loss-free byte queue.
+// loss-free byte queue with a bounded buffer (0 = unbounded).
 type pipeHalf struct {
 	buf    []byte
-	closed bool // writer side closed: reader gets EOF after draining
+	cap    int
+	closed bool          // writer side closed: reader gets EOF after draining
+	data   chan struct{} // signalled when data arrives or the writer closes
+	space  chan struct{} // signalled when the reader consumed something or closed
 }
 
-// Conn is one end of a simulated TCP connection.
+func newHalf(c int) *pipeHalf {
+	return &pipeHalf{cap: c, data: make(chan struct{}, 1), space: make(chan struct{}, 1)}
+}
+
+func signal(ch chan struct{}) {
+	select {
+	case ch <- struct{}{}:
+	default:
+	}
+}
+
+// wait blocks (durably, inside the bubble) until ch is signalled or the
+// deadline passes; it reports false on deadline.
+func wait(ch chan struct{}, deadline time.Time, site string) bool {
+	ok := true
+	if deadline.IsZero() {
+		<-ch
+	} else {
+		d := time.Until(deadline)
+		if d <= 0 {
+			return false
+		}
+		tm := time.NewTimer(d)
+		select {
+		case <-ch:
+		case <-tm.C:
+			ok = false
+		}
+		tm.Stop()
+	}
+	rt.Yield(site)
+	return ok
+}
+
+// Conn is one end of a simulated TCP connection.  Writes block (in simulated
+// time) while the peer's receive buffer is full; read and write deadlines are
+// honoured against the simulated clock.
 type Conn struct {
 	Name     string
 	T        *rt.Tape
@@ -193,23 +232,33 @@ type Conn struct {
 	out      *pipeHalf // we write here
 	closed   bool
 	MaxChunk int
-	Written  []byte // everything this end wrote
+	Written  []byte // everything this end wrote (accepted into the pipe)
 	ReadBuf  []byte // everything this end read
 	EOFPolls int    // reads that returned EOF
-	// ReadErrAfterClose is returned by Read after this end was closed.
+	rdl, wdl time.Time
+	// counters
+	WriteBlocked, WriteTimeouts, ReadTimeouts int
 }
 
 var ErrClosed = errors.New("use of closed network connection")
 
-// Pipe returns the two ends of a simulated connection.
-func Pipe(t *rt.Tape, a, b string) (*Conn, *Conn) {
-	ab, ba := &pipeHalf{}, &pipeHalf{}
+type timeoutError struct{ op string }
+
+func (e timeoutError) Error() string   { return e.op + " tcp: i/o timeout" }
+func (e timeoutError) Timeout() bool   { return true }
+func (e timeoutError) Temporary() bool { return true }
+
+// Pipe returns the two ends of a simulated connection; bufCap bounds each
+// direction's in-flight bytes (0 = unbounded).
+func Pipe(t *rt.Tape, a, b string) (*Conn, *Conn) { return PipeCap(t, a, b, 0) }
+
+func PipeCap(t *rt.Tape, a, b string, bufCap int) (*Conn, *Conn) {
+	ab, ba := newHalf(bufCap), newHalf(bufCap)
 	return &Conn{Name: a, T: t, in: ba, out: ab}, &Conn{Name: b, T: t, in: ab, out: ba}
 }
 
-// Read never blocks: with no data available it reports a zero-length read
-// with a timeout-style error?  No — a real blocking read would park the
-// goroutine.  The simulated read waits by yielding until data, EOF or close.
+// Read waits (by yielding, in simulated time) until data, EOF, close or the
+// read deadline.
 func (c *Conn) Read(p []byte) (int, error) {
 	for {
 		rt.Yield("conn.Read " + c.Name)
@@ -239,35 +288,71 @@ func (c *Conn) Read(p []byte) (int, error) {
 			copy(p, c.in.buf[:n])
 			c.ReadBuf = append(c.ReadBuf, c.in.buf[:n]...)
 			c.in.buf = c.in.buf[n:]
+			signal(c.in.space)
+			if len(c.in.buf) > 0 || c.in.closed {
+				signal(c.in.data)
+			}
 			return n, nil
 		}
 		if c.in.closed {
 			c.EOFPolls++
 			if c.EOFPolls > 1 {
 				// a peer that polls on EOF must not starve the run of steps: the
-				// second and later polls cost simulated time
-				time.Sleep(time.Millisecond)
+				// second and later polls cost simulated time, doubling up to 10 s
+				d := time.Millisecond << uint(min(c.EOFPolls-2, 14))
+				if d > 10*time.Second {
+					d = 10 * time.Second
+				}
+				time.Sleep(d)
 				rt.Yield("conn.Read eof-poll " + c.Name)
 			}
 			return 0, io.EOF
 		}
-		// nothing to read yet: wait (in simulated time) so that a polling
-		// peer cannot starve the run of steps
-		time.Sleep(time.Millisecond)
+		// nothing to read yet: block until the peer writes or closes, this end is
+		// closed, or the read deadline passes
+		if !wait(c.in.data, c.rdl, "conn.Read woke "+c.Name) {
+			c.ReadTimeouts++
+			return 0, timeoutError{"read"}
+		}
 	}
 }
 
 func (c *Conn) Write(p []byte) (int, error) {
-	rt.Yield("conn.Write " + c.Name)
-	if c.closed {
-		return 0, ErrClosed
+	written := 0
+	blocked := false
+	for {
+		rt.Yield("conn.Write " + c.Name)
+		if c.closed {
+			return written, ErrClosed
+		}
+		if c.out.closed {
+			return written, errors.New("write: broken pipe")
+		}
+		room := len(p) - written
+		if c.out.cap > 0 {
+			if free := c.out.cap - len(c.out.buf); free < room {
+				room = free
+			}
+		}
+		if room > 0 {
+			c.out.buf = append(c.out.buf, p[written:written+room]...)
+			c.Written = append(c.Written, p[written:written+room]...)
+			written += room
+			signal(c.out.data)
+		}
+		if written == len(p) {
+			return written, nil
+		}
+		// the peer's receive buffer is full: block until it reads or the deadline passes
+		if !blocked {
+			c.WriteBlocked++
+			blocked = true
+		}
+		if !wait(c.out.space, c.wdl, "conn.Write woke "+c.Name) {
+			c.WriteTimeouts++
+			return written, timeoutError{"write"}
+		}
 	}
-	if c.out.closed {
-		return 0, errors.New("write: broken pipe")
-	}
-	c.out.buf = append(c.out.buf, p...)
-	c.Written = append(c.Written, p...)
-	return len(p), nil
 }
 
 func (c *Conn) Close() error {
@@ -277,6 +362,11 @@ func (c *Conn) Close() error {
 	}
 	c.closed = true
 	c.out.closed = true
+	// wake whoever waits on either direction
+	signal(c.out.data)
+	signal(c.out.space)
+	signal(c.in.data)
+	signal(c.in.space)
 	return nil
 }
 
@@ -290,6 +380,6 @@ func (a addr) String() string  { return string(a) }
 
 func (c *Conn) LocalAddr() net.Addr                { return addr(c.Name) }
 func (c *Conn) RemoteAddr() net.Addr               { return addr(c.Name + "-peer") }
-func (c *Conn) SetDeadline(t time.Time) error      { return nil }
-func (c *Conn) SetReadDeadline(t time.Time) error  { return nil }
-func (c *Conn) SetWriteDeadline(t time.Time) error { return nil }
+func (c *Conn) SetDeadline(t time.Time) error      { c.rdl, c.wdl = t, t; return nil }
+func (c *Conn) SetReadDeadline(t time.Time) error  { c.rdl = t; return nil }
+func (c *Conn) SetWriteDeadline(t time.Time) error { c.wdl = t; return nil }
